@@ -36,9 +36,17 @@ for sid in sorted(sigs):
     d = os.path.join(root, sid)
     prop = sid.split('-')[0]
     det, ran = {}, []
+    # results of the previous complete matrix are kept in meta.json; checks re-run since then (logs under root) override them
+    mp0 = f'/verif/seeded/{sid}/meta.json'
+    m0 = json.load(open(mp0))
+    if isinstance(m0.get('detected_by'), dict):
+        det = dict(m0['detected_by'])
+    ran = list(m0.get('checks_run_in_final_matrix', []))
     for lg in sorted(glob.glob(os.path.join(d, 'C*.log'))):
         p = os.path.basename(lg)[:-4]
-        ran.append(p)
+        if p not in ran:
+            ran.append(p)
+        det.pop(p, None)
         txt = open(lg, errors='replace').read()
         if 'VIOLATION property=' in txt:
             det[p] = sorted(set(re.findall(r'rule=([A-Za-z0-9/_-]+)', txt)))
@@ -51,7 +59,7 @@ for sid in sorted(sigs):
     m = json.load(open(mp))
     if ran:
         m['detected_by'] = det if det else 'no check'
-        m['checks_run_in_final_matrix'] = ran
+        m['checks_run_in_final_matrix'] = sorted(ran)
         m['fired_in_an_earlier_run_not_repeated'] = old
         m['own_property_check_fires'] = prop in det
         if sid in repeats:
